@@ -5,7 +5,7 @@ import sys
 import time
 import traceback
 
-from .source import Program, AnalysisError, read_tree
+from .source import Program, AnalysisError, ShapeError, read_tree
 from .flow import Analysis
 from .calls import CallGraph
 from .report import Report
@@ -88,6 +88,9 @@ def run_check(pid, files, tier="quick", seed=0, quiet=False, out=sys.stdout, wri
             raise AnalysisError("check produced no obligations (vacuous)")
         if extra is not None:
             extra(ctx, rep)
+        return rep.finish(out, write=write), rep
+    except ShapeError as e:
+        rep.fail(pid + ".model-shape", e.construct or "model", str(e), e.where or "")
         return rep.finish(out, write=write), rep
     except AnalysisError as e:
         print("ANALYSIS-ERROR property=%s %s" % (pid, e), file=out)
